@@ -1,3 +1,255 @@
 import PharmpyModel.C17.Sched
+/-
+  Helper lemmas for C17 (core Lean only, no Mathlib).
+-/
 namespace Pharmpy.C17
+
+section Sched
+variable {κ V : Type} [DecidableEq κ]
+
+omit [DecidableEq κ] in
+theorem lookupAll_eq_some {e : Env κ V} {ks : List κ} {vs : List V} (h : lookupAll e ks = some vs) :
+    ∀ k ∈ ks, ∃ v, e k = some v := by
+  induction ks generalizing vs with
+  | nil => intro k hk; cases hk
+  | cons k ks ih =>
+    intro x hx
+    simp only [lookupAll] at h
+    cases hk : e k with
+    | none => simp [hk] at h
+    | some v =>
+      cases hks : lookupAll e ks with
+      | none => simp [hk, hks] at h
+      | some ws =>
+        rcases List.mem_cons.mp hx with rfl | hx
+        · exact ⟨v, hk⟩
+        · exact ih hks x hx
+
+omit [DecidableEq κ] in
+theorem lookupAll_mono {e e' : Env κ V} (hm : ∀ k v, e k = some v → e' k = some v)
+    {ks : List κ} {vs : List V} (h : lookupAll e ks = some vs) : lookupAll e' ks = some vs := by
+  induction ks generalizing vs with
+  | nil => simpa [lookupAll] using h
+  | cons k ks ih =>
+    simp only [lookupAll] at h ⊢
+    cases hk : e k with
+    | none => simp [hk] at h
+    | some v =>
+      cases hks : lookupAll e ks with
+      | none => simp [hk, hks] at h
+      | some ws =>
+        simp [hk, hks] at h
+        simp [hm k v hk, ih hks, h]
+
+omit [DecidableEq κ] in
+theorem lookupAll_isSome {e : Env κ V} {ks : List κ} (h : ∀ k ∈ ks, ∃ v, e k = some v) :
+    ∃ vs, lookupAll e ks = some vs := by
+  induction ks with
+  | nil => exact ⟨[], rfl⟩
+  | cons k ks ih =>
+    obtain ⟨v, hv⟩ := h k (by simp)
+    obtain ⟨vs, hvs⟩ := ih (fun x hx => h x (by simp [hx]))
+    exact ⟨v :: vs, by simp [lookupAll, hv, hvs]⟩
+
+omit [DecidableEq κ] in
+theorem den_succ_of_den (tg : TaskGraph κ V) (n : Nat) :
+    ∀ k v, den tg n k = some v → den tg (n + 1) k = some v := by
+  induction n with
+  | zero => intro k v h; simp [den] at h
+  | succ n ih =>
+    intro k v h
+    simp only [den] at h
+    cases hl : lookupAll (den tg n) (tg.deps k) with
+    | none => simp [hl] at h
+    | some vs =>
+      simp [hl] at h
+      have := lookupAll_mono (e' := den tg (n + 1)) ih hl
+      show den tg (n + 1 + 1) k = some v
+      simp only [den]
+      simp only [den] at this
+      simp [this, h]
+
+omit [DecidableEq κ] in
+theorem den_mono (tg : TaskGraph κ V) {n m : Nat} (hnm : n ≤ m) (k : κ) (v : V)
+    (h : den tg n k = some v) : den tg m k = some v := by
+  induction hnm with
+  | refl => exact h
+  | step _ ih => exact den_succ_of_den tg _ k v ih
+
+theorem fire_eq_some {tg : TaskGraph κ V} {e e' : Env κ V} {k : κ} (h : fire tg e k = some e') :
+    e k = none ∧ ∃ vs, lookupAll e (tg.deps k) = some vs ∧ e' = e.set k (tg.fn k vs) := by
+  unfold fire at h
+  cases hk : e k with
+  | some v => simp [hk] at h
+  | none =>
+    cases hl : lookupAll e (tg.deps k) with
+    | none => simp [hk, hl] at h
+    | some vs =>
+      simp [hk, hl] at h
+      exact ⟨rfl, vs, rfl, h.symm⟩
+
+/-- Every value in the state is the reference value (with fuel `n`). -/
+def Sound (tg : TaskGraph κ V) (e : Env κ V) (n : Nat) : Prop :=
+  ∀ k v, e k = some v → den tg n k = some v
+
+theorem fire_sound {tg : TaskGraph κ V} {e e' : Env κ V} {k : κ} {n : Nat}
+    (hs : Sound tg e n) (h : fire tg e k = some e') : Sound tg e' (n + 1) := by
+  obtain ⟨_, vs, hl, rfl⟩ := fire_eq_some h
+  intro x v hx
+  unfold Env.set at hx
+  by_cases hxk : x = k
+  · subst hxk
+    simp at hx
+    have := lookupAll_mono (e' := den tg n) hs hl
+    simp only [den, this]
+    simp [hx]
+  · simp [hxk] at hx
+    exact den_succ_of_den tg n x v (hs x v hx)
+
+theorem runSeq_sound {tg : TaskGraph κ V} (s : List κ) :
+    ∀ (e e' : Env κ V) (n : Nat), Sound tg e n → runSeq tg e s = some e' → Sound tg e' (n + s.length) := by
+  induction s with
+  | nil => intro e e' n hs h; simp [runSeq] at h; subst h; simpa using hs
+  | cons k ks ih =>
+    intro e e' n hs h
+    simp only [runSeq] at h
+    cases hf : fire tg e k with
+    | none => simp [hf] at h
+    | some e1 =>
+      simp [hf] at h
+      have := ih e1 e' (n + 1) (fire_sound hs hf) h
+      simpa [Nat.add_assoc, Nat.add_comm 1] using this
+
+theorem runSeq_append (tg : TaskGraph κ V) (a b : List κ) (e : Env κ V) :
+    runSeq tg e (a ++ b) = (runSeq tg e a).bind (fun e' => runSeq tg e' b) := by
+  induction a generalizing e with
+  | nil => simp [runSeq]
+  | cons k ks ih =>
+    simp only [List.cons_append, runSeq]
+    cases hf : fire tg e k with
+    | none => simp
+    | some e1 => simp [ih]
+
+/-- Bookkeeping of a firing sequence: no key twice, only unfired keys, and the
+    final state has values exactly for the old keys and the fired ones. -/
+theorem runSeq_fired {tg : TaskGraph κ V} (s : List κ) :
+    ∀ (e e' : Env κ V), runSeq tg e s = some e' →
+      s.Nodup ∧ (∀ k ∈ s, e k = none) ∧ ∀ k, (e' k).isSome ↔ ((e k).isSome ∨ k ∈ s) := by
+  induction s with
+  | nil => intro e e' h; simp [runSeq] at h; subst h; simp
+  | cons k ks ih =>
+    intro e e' h
+    simp only [runSeq] at h
+    cases hf : fire tg e k with
+    | none => simp [hf] at h
+    | some e1 =>
+      simp [hf] at h
+      obtain ⟨hnd, hnone, hiff⟩ := ih e1 e' h
+      obtain ⟨hk, vs, _, rfl⟩ := fire_eq_some hf
+      have hset : ∀ x, (Env.set e k (tg.fn k vs) x).isSome ↔ ((e x).isSome ∨ x = k) := by
+        intro x; unfold Env.set
+        by_cases hx : x = k <;> simp [hx]
+      refine ⟨?_, ?_, ?_⟩
+      · refine List.nodup_cons.mpr ⟨?_, hnd⟩
+        intro hmem
+        have := hnone k hmem
+        simp [Env.set] at this
+      · intro x hx
+        rcases List.mem_cons.mp hx with rfl | hx
+        · exact hk
+        · have := hnone x hx
+          unfold Env.set at this
+          by_cases hxk : x = k
+          · simp [hxk] at this
+          · simpa [hxk] using this
+      · intro x
+        rw [hiff x, hset x]
+        simp only [List.mem_cons]
+        constructor
+        · rintro ((h1 | h1) | h1)
+          · exact Or.inl h1
+          · exact Or.inr (Or.inl h1)
+          · exact Or.inr (Or.inr h1)
+        · rintro (h1 | h1 | h1)
+          · exact Or.inl (Or.inl h1)
+          · exact Or.inl (Or.inr h1)
+          · exact Or.inr h1
+
+theorem fire_keeps {tg : TaskGraph κ V} {e e' : Env κ V} {k : κ} (h : fire tg e k = some e') :
+    ∀ x w, e x = some w → e' x = some w := by
+  obtain ⟨hk, vs, _, rfl⟩ := fire_eq_some h
+  intro x w hx
+  unfold Env.set
+  by_cases hxk : x = k
+  · subst hxk; rw [hk] at hx; cases hx
+  · simp [hxk, hx]
+
+/-- Values never change once set. -/
+theorem runSeq_keeps {tg : TaskGraph κ V} (s : List κ) :
+    ∀ (e e' : Env κ V), runSeq tg e s = some e' → ∀ x w, e x = some w → e' x = some w := by
+  induction s with
+  | nil => intro e e' h; simp [runSeq] at h; subst h; exact fun _ _ h => h
+  | cons k ks ih =>
+    intro e e' h x w hx
+    simp only [runSeq] at h
+    cases hf : fire tg e k with
+    | none => simp [hf] at h
+    | some e1 =>
+      simp [hf] at h
+      exact ih e1 e' h x w (fire_keeps hf x w hx)
+
+/-- A repetition-free sequence of unfired keys in which every key comes after
+    the keys it mentions (or those have values already) is admissible. -/
+theorem runSeq_topo (tg : TaskGraph κ V) (s : List κ) :
+    ∀ (e : Env κ V), s.Nodup → (∀ k ∈ s, e k = none) →
+      (∀ p k q, s = p ++ k :: q → ∀ d ∈ tg.deps k, (e d).isSome ∨ d ∈ p) →
+      ∃ e', runSeq tg e s = some e' := by
+  induction s with
+  | nil => intro e _ _ _; exact ⟨e, rfl⟩
+  | cons k ks ih =>
+    intro e hnd hnone htopo
+    have hk : e k = none := hnone k (by simp)
+    have hdeps : ∀ d ∈ tg.deps k, ∃ v, e d = some v := by
+      intro d hd
+      rcases htopo [] k ks rfl d hd with h | h
+      · exact Option.isSome_iff_exists.mp h
+      · cases h
+    obtain ⟨vs, hvs⟩ := lookupAll_isSome hdeps
+    have hf : fire tg e k = some (e.set k (tg.fn k vs)) := by
+      unfold fire; simp [hk, hvs]
+    have hnd' := List.nodup_cons.mp hnd
+    obtain ⟨e', he'⟩ := ih (e.set k (tg.fn k vs)) hnd'.2
+      (by
+        intro x hx
+        have hxk : x ≠ k := fun h => hnd'.1 (h ▸ hx)
+        unfold Env.set; simp [hxk, hnone x (by simp [hx])])
+      (by
+        intro p x q hs d hd
+        rcases htopo (k :: p) x q (by simp [hs]) d hd with h | h
+        · left
+          obtain ⟨v, hv⟩ := Option.isSome_iff_exists.mp h
+          unfold Env.set
+          by_cases hdk : d = k <;> simp [hdk, hv]
+        · rcases List.mem_cons.mp h with rfl | h
+          · left; unfold Env.set; simp
+          · exact Or.inr h)
+    exact ⟨e', by simp [runSeq, hf, he']⟩
+
+theorem evalAlong_schedule (tg : TaskGraph κ V) (order : List κ) :
+    ∀ e : Env κ V, ∃ s, s.Sublist order ∧ runSeq tg e s = some (evalAlong tg e order) := by
+  induction order with
+  | nil => intro e; exact ⟨[], List.Sublist.refl _, rfl⟩
+  | cons k ks ih =>
+    intro e
+    simp only [evalAlong]
+    cases hf : fire tg e k with
+    | none =>
+      obtain ⟨s, hs, hr⟩ := ih e
+      exact ⟨s, hs.cons _, by simpa using hr⟩
+    | some e1 =>
+      obtain ⟨s, hs, hr⟩ := ih e1
+      exact ⟨k :: s, hs.cons_cons _, by simp [runSeq, hf, hr]⟩
+
+end Sched
+
 end Pharmpy.C17
